@@ -1,5 +1,5 @@
 """Property -> rules mapping."""
-from .rules import cfg, det, hdr, hyg
+from .rules import cfg, det, hdr, hyg, rawid
 
 PROPS = {}
 
@@ -66,3 +66,6 @@ prop(
         ],
     },
 )
+
+
+prop("C06", [rawid.rule_raw_id], meta={"explanation": "wip"})
